@@ -1,4 +1,5 @@
 import SamplyModel.Lemmas.LibIdentity
+import SamplyModel.Lemmas.LibWalk
 /-!
 # C19 — a saved profile carries enough library identity for the server to symbolicate it
 
@@ -148,6 +149,26 @@ theorem C19_reader_walks_threads_and_processes (libs : List JObj) (threads : Lis
   cases ha : parseLibs libs <;> cases hb : parseLibs threads.flatten <;> cases hc : collectAll procs <;>
     simp [ha, hb, hc] at h
   exact ⟨_, _, _, rfl, rfl, rfl, by rw [List.append_assoc]; exact h.symm⟩
+
+/-- **The walk reaches every position** (stronger form of the unfolding lemma above). `allObjs` is the
+specification-side list of all library objects anywhere in the document; `PDoc.sub path` follows `processes[i]`
+for each index of `path`. If the reader accepts the document, what it collected is exactly the deserialization of
+`allObjs`, in document order; in particular every library object in the `libs` of a process reached by *any* path,
+or in the `libs` of any of that process's threads, has been collected. -/
+theorem C19_reader_collects_every_position (d : PDoc) (all : List JLib) (h : collect d = some all) :
+    parseLibs d.allObjs = some all ∧
+    ∀ (path : List Nat) (libs : List JObj) (threads : List (List JObj)) (procs : List PDoc),
+      PDoc.sub path d = some (.mk libs threads procs) →
+      ∀ o, (o ∈ libs ∨ ∃ t ∈ threads, o ∈ t) → ∃ l ∈ all, parseLib o = some l := by
+  have hall : parseLibs d.allObjs = some all := by rw [← collect_eq_parse_allObjs]; exact h
+  refine ⟨hall, ?_⟩
+  intro path libs threads procs hsub o ho
+  apply parseLibs_mem d.allObjs all hall o
+  apply sub_allObjs path d _ hsub o
+  simp only [PDoc.allObjs, List.mem_append, List.mem_flatten]
+  rcases ho with h1 | ⟨t, ht, hot⟩
+  · exact Or.inl (Or.inl h1)
+  · exact Or.inl (Or.inr ⟨t, ht, hot⟩)
 
 /-! ## improvement round: key names, the converter's identity, which candidate is used -/
 
@@ -366,3 +387,7 @@ example : (convertMapping [47, 97] (.elf (some (List.replicate 20 1)) []) (some 
 /-- a stale `<path>.dbg` with another debug id is skipped, the binary answers -/
 example : firstAccepted (fun c => if c = Cand.localFile [1] then some (DebugId.uuid [] 1) else some (DebugId.uuid [] 2))
     (DebugId.uuid [] 2) [Cand.localFile [1], Cand.localFile [2]] = some (Cand.localFile [2]) := by decide
+
+/-- a library object three levels down (`processes[1].processes[0].threads[1].libs`) is reached -/
+example : PDoc.sub [1, 0] (.mk [] [] [.mk [] [] [], .mk [] [] [.mk [] [[], [[(Key.name, JVal.null)]]] []]])
+    = some (.mk [] [[], [[(Key.name, JVal.null)]]] []) := by simp [PDoc.sub]
